@@ -46,6 +46,14 @@ def propagated(b, pos, t):
     return classify_result_flow(b, pos, t) == 'propagated'
 
 
+def root_replacements(b):
+    """positions where the model's root element is replaced: a store to the field or mem::replace/swap/take through a reference to it"""
+    stores = [pos for pos, st in b.iter_stmts() if st['k'] == 'assign' and has_field(st['dst'], 'AutosarModelRaw.root_element')]
+    swaps = [pos for pos, t in b.iter_calls() if call_matches(t, r'mem::(replace|swap|take)$') and t['args'] and is_local_op(t['args'][0])
+             and any('AutosarModelRaw.root_element' in f for f in __import__('flow').deep_sources(b, t['args'][0], depth=8)[2])]
+    return stores + swaps
+
+
 def run(ctx):
     C = Check('C03', ctx['tier'], 'other', ctx['seed'])
     P = Program(ctx['facts'])
@@ -57,6 +65,17 @@ def run(ctx):
     C.assumptions = ['identity of the inserted element and the element whose parent is set is approximated by co-occurrence in one function plus dominance',
                      'rustc privacy: ElementRaw and the Arc<RwLock<..>> inside Element are not reachable from other crates (see witness/)']
 
+    # the root element is an element of the tree like every other: where the model's root is REPLACED, the previous root leaves the tree and
+    # must be unlinked (parent := None), otherwise a handle to it still answers model() / parent()
+    for b in sorted(P.bodies.values(), key=lambda x: x.short):
+        if b.crate != 'autosar_data':
+            continue
+        for pos in root_replacements(b):
+            unl = [q for q, t in b.iter_calls() if call_matches(t, r'(Element|ElementRaw)>?::set_parent$|ElementRaw>?::remove_internal$') and any(
+                o_[0] not in ('param', 'const', 'place') and o_[1].get('k') == 'assign' and o_[1]['rv']['k'] == 'agg' and o_[1]['rv'].get('var') == 'None' and o_[1]['rv'].get('adt') == 'ElementOrModel'
+                for a_ in t['args'][1:] if is_local_op(a_) for o_ in origins(b, a_)) or call_matches(t, r'remove_internal$')]
+            C.check(bool(unl), 'C03-PAIR-link', '%s|root-replaced|old-root-unlinked' % b.short, 'the root element of the model is replaced in %s without unlinking the previous root (parent := None): a handle to the old root still answers model() and parent() although it is no longer part of the tree' % b.short,
+                    b.where(pos), sample={'fn': b.short, 'event': 'root_element replaced', 'partner': 'old_root.set_parent(ElementOrModel::None)'})
     n_ins = n_rem = 0
     writers = set()
     for b in sorted(P.bodies.values(), key=lambda x: x.short):
@@ -137,7 +156,7 @@ def run(ctx):
 
     # root replacement on first load: the old root must not stay attached to the model
     lb = P.get('AutosarModel::load_buffer_internal')
-    rw = [pos for pos, s in lb.iter_stmts() if s['k'] == 'assign' and ends_in_field(s['dst'], 'AutosarModelRaw.root_element')]
+    rw = root_replacements(lb)
     C.check(len(rw) == 1, 'C03-PAIR-link', 'load_buffer_internal|root-replacement-site', 'expected exactly one replacement of AutosarModelRaw.root_element, found %d' % len(rw))
     for pos in rw:
         ok = bool(dominated_by(lb, pos, [p['pos'] for p in E.parent_sets(lb) if p['value'] == 'Model']))
